@@ -5,4 +5,4 @@ CONSTANTS
   NBody = 4
 VIEW ViewNoHist
 INVARIANT TypeOK
-PROPERTIES RoundTrip Binding ForeignPartRejected TruncatedRejected
+PROPERTIES RoundTrip Binding ForeignPartRejected TruncatedRejected MalformedProposerRejected
